@@ -391,5 +391,98 @@ func slABA(tw *trace.Writer, attempts int) error {
 	if done == 0 {
 		return fmt.Errorf("aba: the start structure never came out as needed")
 	}
+	// second schedule (counterexample of MC_pre_noentry.cfg): an Insert finds its node full, remembers the node's
+	// counter and releases the latch (gate); a Remove takes a smaller entry out of that node; the Insert must notice
+	// and start over - if it does not, it splits with the indexes it computed before.
+	for a := 0; a < attempts; a++ {
+		x := newSlEnv(32)
+		for _, t := range []int{10, 20, 30} {
+			x.sl.Insert(slKeyT(t), uint64(t))
+		}
+		emit(map[string]interface{}{"ev": "Reset", "ents": [][]int{{10, 10}, {20, 20}, {30, 30}}, "q": 1000 + a, "variant": "split-vs-remove"})
+		gate := make(chan struct{})
+		reached := make(chan struct{})
+		var first int32
+		skip_list_page.VerifGate = func(point string) {
+			if point == "validate" && atomic.CompareAndSwapInt32(&first, 0, 1) {
+				close(reached)
+				<-gate
+			}
+		}
+		fin := make(chan struct{})
+		emit(map[string]interface{}{"ev": "Inv", "c": 1, "k": "ins", "a": 25, "r": 25, "res": "ok"})
+		go func() {
+			defer func() { recover(); close(fin) }()
+			x.sl.Insert(slKeyT(25), 25)
+		}()
+		select {
+		case <-reached:
+		case <-time.After(10 * time.Second):
+			return fmt.Errorf("split-vs-remove: the insert never reached its validation")
+		}
+		emit(map[string]interface{}{"ev": "Inv", "c": 2, "k": "del", "a": 10, "r": 10, "res": "ok"})
+		x.sl.Remove(slKeyT(10), 10)
+		emit(map[string]interface{}{"ev": "Ret", "c": 2, "res": "ok"})
+		close(gate)
+		select {
+		case <-fin:
+		case <-time.After(10 * time.Second):
+			emit(map[string]interface{}{"ev": "Hang", "c": 1})
+			skip_list_page.VerifGate = nil
+			continue
+		}
+		skip_list_page.VerifGate = nil
+		emit(map[string]interface{}{"ev": "Ret", "c": 1, "res": "ok"})
+		c := 10
+		for _, t := range []int{10, 20, 25, 30} {
+			c++
+			inv := map[string]interface{}{"ev": "Inv", "c": c, "k": "point", "a": t, "rids": []int{}, "res": "ok"}
+			ch := make(chan uint64, 1)
+			go func() {
+				defer func() {
+					if recover() != nil {
+						ch <- math.MaxUint64 - 1
+					}
+				}()
+				ch <- x.sl.GetValue(slKeyT(t))
+			}()
+			select {
+			case v := <-ch:
+				if v == math.MaxUint64-1 {
+					inv["res"] = "panic"
+				} else if v != math.MaxUint64 {
+					inv["rids"] = []int{int(v)}
+				}
+			case <-time.After(5 * time.Second):
+				inv["ev"] = "Hang"
+			}
+			emit(inv)
+			if inv["ev"] == "Hang" {
+				break
+			}
+			emit(map[string]interface{}{"ev": "Ret", "c": c, "res": "ok"})
+		}
+		// an ordered scan of everything
+		sc := map[string]interface{}{"ev": "Inv", "c": 99, "k": "scan", "lo": -2, "hi": -2, "rids": []int{}, "res": "ok"}
+		ch := make(chan []int, 1)
+		go func() {
+			defer func() {
+				if recover() != nil {
+					ch <- []int{-1}
+				}
+			}()
+			ch <- x.scan(nil, nil, true)
+		}()
+		select {
+		case v := <-ch:
+			sc["rids"] = v // (row id = key in this replay)
+		case <-time.After(5 * time.Second):
+			sc["ev"] = "Hang"
+		}
+		emit(sc)
+		if sc["ev"] != "Hang" {
+			emit(map[string]interface{}{"ev": "Ret", "c": 99, "res": "ok"})
+		}
+	}
 	return nil
 }
